@@ -235,6 +235,7 @@ pub const WORKLOADS: &[&str] = &[
     "stride_scan",
     "special_priority_values",
     "split_insert_gather",
+    "one_node_per_fresh_thread",
 ];
 
 /// Runs one workload to `n` elements. Returns the treap's final stats for the evidence.
@@ -420,6 +421,62 @@ pub fn run_workload(name: &str, n: usize, seed: u64, rep: &mut Report) {
                         return;
                     }
                 }
+            }
+            "one_node_per_fresh_thread" => {
+                // tens of thousands of short-lived threads, one after the other; the very first thing each of them does
+                // with the library is to create one node - through one of four entry points - and hand it back; the nodes
+                // are appended in order. The first priority of every thread is what decides the shape.
+                // five passes: every thread of a pass uses the same entry point (passes 0..3), or they alternate (pass 4)
+                let per = (n / 8).clamp(150, 3000);
+                let mixed = n.clamp(600, 40_000);
+                let m = 4 * per + mixed;
+                let pass_of = |k: usize| (k / per).min(4);
+                for k in 0..m {
+                    let pass = pass_of(k);
+                    if k > 0 && pass_of(k - 1) != pass {
+                        // a new pass starts with an empty treap
+                        if !cx.checkpoint(&t, len, &format!("one node per fresh thread, entry point pass {}", pass - 1)) {
+                            return;
+                        }
+                        t = lib!(Treap::new());
+                        len = 0;
+                    }
+                    let entry = if pass < 4 { pass } else { k % 4 };
+                    let part = std::thread::Builder::new()
+                        .stack_size(256 << 10)
+                        .spawn(move || -> Treap<KeyItem> {
+                            match entry {
+                                0 => Treap { root: Some(Box::new(TreapNode::new(item(k as u64)))) },
+                                1 => Treap::from_item(item(k as u64)),
+                                2 => {
+                                    let mut tr: Treap<KeyItem> = Treap::default();
+                                    tr.insert_at(0, item(k as u64));
+                                    tr
+                                }
+                                _ => {
+                                    let mut tr: Treap<KeyItem> = Treap::new();
+                                    tr.insert_at(0, item(k as u64));
+                                    tr
+                                }
+                            }
+                        })
+                        .expect("spawn")
+                        .join();
+                    let part = match part {
+                        Ok(p) => p,
+                        Err(_) => {
+                            cx.violation("panic", Json::obj().set("what", "a thread creating its first node panicked"));
+                            return;
+                        }
+                    };
+                    let old = std::mem::take(&mut t);
+                    t = lib!(Treap::merge(old, part));
+                    len += 1;
+                    if !cx.staged(&t, len) {
+                        return;
+                    }
+                }
+                cx.rep.count("threads_contributing_their_first_node", m as u64);
             }
             "split_insert_gather" => {
                 // one treap is cut into many parts, every part receives new elements through insert_at, the parts are put
